@@ -2032,6 +2032,17 @@ static int host_is_big_endian() {
 
             *section) set to the logical bitstream number */
 
+/* vorbis_ftoi on a value beyond the range of an int yields INT_MIN
+   whatever the sign (that is what the hardware conversion does), which
+   the clipping below would then turn into the negative rail.  Keep the
+   product inside the int range first; the rails themselves are applied
+   by the callers. */
+static int _ov_ftoi(float f){
+  if(f>1073741824.f)return 1073741824;
+  if(f<-1073741824.f)return -1073741824;
+  return vorbis_ftoi(f);
+}
+
 long ov_read_filter(OggVorbis_File *vf,char *buffer,int length,
                     int bigendianp,int word,int sgned,int *bitstream,
                     void (*filter)(float **pcm,long channels,long samples,void *filter_param),void *filter_param){
@@ -2088,7 +2099,7 @@ long ov_read_filter(OggVorbis_File *vf,char *buffer,int length,
         vorbis_fpu_setround(&fpu);
         for(j=0;j<samples;j++)
           for(i=0;i<channels;i++){
-            val=vorbis_ftoi(pcm[i][j]*128.f);
+            val=_ov_ftoi(pcm[i][j]*128.f);
             if(val>127)val=127;
             else if(val<-128)val=-128;
             *buffer++=val+off;
@@ -2105,7 +2116,7 @@ long ov_read_filter(OggVorbis_File *vf,char *buffer,int length,
               float *src=pcm[i];
               short *dest=((short *)buffer)+i;
               for(j=0;j<samples;j++) {
-                val=vorbis_ftoi(src[j]*32768.f);
+                val=_ov_ftoi(src[j]*32768.f);
                 if(val>32767)val=32767;
                 else if(val<-32768)val=-32768;
                 *dest=val;
@@ -2121,7 +2132,7 @@ long ov_read_filter(OggVorbis_File *vf,char *buffer,int length,
               float *src=pcm[i];
               short *dest=((short *)buffer)+i;
               for(j=0;j<samples;j++) {
-                val=vorbis_ftoi(src[j]*32768.f);
+                val=_ov_ftoi(src[j]*32768.f);
                 if(val>32767)val=32767;
                 else if(val<-32768)val=-32768;
                 *dest=val+off;
@@ -2136,7 +2147,7 @@ long ov_read_filter(OggVorbis_File *vf,char *buffer,int length,
           vorbis_fpu_setround(&fpu);
           for(j=0;j<samples;j++)
             for(i=0;i<channels;i++){
-              val=vorbis_ftoi(pcm[i][j]*32768.f);
+              val=_ov_ftoi(pcm[i][j]*32768.f);
               if(val>32767)val=32767;
               else if(val<-32768)val=-32768;
               val+=off;
@@ -2150,7 +2161,7 @@ long ov_read_filter(OggVorbis_File *vf,char *buffer,int length,
           vorbis_fpu_setround(&fpu);
           for(j=0;j<samples;j++)
             for(i=0;i<channels;i++){
-              val=vorbis_ftoi(pcm[i][j]*32768.f);
+              val=_ov_ftoi(pcm[i][j]*32768.f);
               if(val>32767)val=32767;
               else if(val<-32768)val=-32768;
               val+=off;
